@@ -30,6 +30,75 @@ SALLF = ALLF.replace('address,address6,', '')
 SCFGF = CFGF.replace('address,address6,', '')
 SFT = ' allf=%s cfgf=%s' % (SALLF, SCFGF)
 
+# every type the harness can create through ConfigObjectUtility: config fields used by the generator (cfgf) and the
+# minimal valid attribute dictionary.  allf = cfgf + one field that exists but is not configurable.
+_GRP = 'vars,display_name,groups,zone,name'
+_CMD = 'vars,command,arguments,env,timeout,zone,name'
+TYPES = {
+    'Host': (CFGF, 'last_check'), 'Service': (SCFGF, 'last_check'),
+    'User': ('vars,display_name,groups,period,email,pager,enable_notifications,zone,name', 'last_notification'),
+    'UserGroup': (_GRP, 'templates'), 'HostGroup': (_GRP, 'templates'), 'ServiceGroup': (_GRP, 'templates'),
+    'CheckCommand': (_CMD, 'templates'), 'NotificationCommand': (_CMD, 'templates'), 'EventCommand': (_CMD, 'templates'),
+    'TimePeriod': ('vars,display_name,ranges,prefer_includes,excludes,includes,zone,name', 'valid_begin'),
+    'Zone': ('parent,endpoints,global,zone,name', 'templates'),
+    'ApiUser': ('password,permissions,zone,name', 'templates'),
+    'Notification': ('vars,command,interval,period,users,user_groups,host_name,service_name,zone,name', 'last_notification'),
+    'Dependency': ('vars,child_host_name,child_service_name,parent_host_name,parent_service_name,disable_checks,disable_notifications,ignore_soft_states,period,zone,name', 'templates'),
+    'Comment': ('host_name,service_name,author,text,entry_type,persistent,expire_time,zone,name', 'legacy_id'),
+    'Downtime': ('host_name,service_name,author,comment,start_time,end_time,fixed,duration,zone,name', 'legacy_id'),
+    'ScheduledDowntime': ('vars,host_name,service_name,author,comment,ranges,fixed,duration,zone,name', 'templates'),
+}
+SIMPLE_TYPES = ['Host', 'User', 'UserGroup', 'HostGroup', 'ServiceGroup', 'CheckCommand', 'NotificationCommand', 'EventCommand', 'TimePeriod', 'Zone', 'ApiUser']
+COMPOSITE3 = ['Notification', 'Dependency', 'Comment', 'Downtime', 'ScheduledDowntime']
+COMPOSITE = ['Service'] + COMPOSITE3
+
+
+def ft(ty):
+    cfgf, extra = TYPES[ty]
+    return ' allf=%s,%s cfgf=%s' % (cfgf, extra, cfgf)
+
+
+def valid_attrs(ty, parent_host='h0'):
+    """minimal attribute dictionary with which the type can be created in the fixture"""
+    if ty in ('Host', 'Service'): return {'check_command': 'cwcmd'}
+    if ty in ('CheckCommand', 'NotificationCommand', 'EventCommand'): return {'command': ['/bin/true']}
+    if ty == 'TimePeriod': return {'ranges': {}}
+    if ty == 'ApiUser': return {'password': 'pw'}
+    if ty == 'Notification': return {'command': 'cwncmd', 'users': ['cwuser']}
+    if ty == 'Dependency': return {'parent_host_name': parent_host}
+    if ty == 'Comment': return {'author': 'cw', 'text': 'txt'}
+    if ty == 'Downtime': return {'author': 'cw', 'comment': 'cmt', 'start_time': Num(2100000000), 'end_time': Num(2100003600)}
+    if ty == 'ScheduledDowntime': return {'author': 'cw', 'comment': 'cmt', 'ranges': {}}
+    return {}
+
+
+def variant_attrs(ty, parent_host='h0'):
+    """valid attributes that differ from valid_attrs (a duplicate request that differs only in attributes)"""
+    a = dict(valid_attrs(ty, parent_host))
+    if ty in ('Host', 'Service', 'User', 'UserGroup', 'HostGroup', 'ServiceGroup'): a['display_name'] = 'other "one"'
+    elif ty in ('CheckCommand', 'NotificationCommand', 'EventCommand'): a['timeout'] = Num(17)
+    elif ty == 'TimePeriod': a['display_name'] = 'x'
+    elif ty == 'Zone': a['global'] = True
+    elif ty == 'ApiUser': a['password'] = 'other'
+    elif ty == 'Notification': a['interval'] = Num(90)
+    elif ty == 'Dependency': a['disable_checks'] = True
+    elif ty == 'Comment': a['text'] = 'another text'
+    elif ty == 'Downtime': a['comment'] = 'another'
+    elif ty == 'ScheduledDowntime': a['comment'] = 'another'
+    return a
+
+
+def cr(ty, name, attrs, exp='ok', must=False, extra=''):
+    return 'cw_create type=%s name=%s attrs=%s exp=%s%s%s%s' % (ty, hx(name), enc(attrs), exp, ' must=ok' if must else '', extra, ft(ty))
+
+
+def dl(ty, name, cascade=0):
+    return 'cw_delete type=%s name=%s cascade=%d' % (ty, hx(name), cascade)
+
+
+def st(ty, name, parent=None):
+    return 'cw_static type=%s name=%s%s' % (ty, hx(name), (' parent=' + hx(parent)) if parent else '')
+
 KEYWORDS = ['object', 'template', 'include', 'include_recursive', 'include_zones', 'library', 'null', 'true', 'false', 'const', 'var', 'this',
             'globals', 'locals', 'use', 'using', 'namespace', 'default', 'ignore_on_error', 'current_filename', 'current_line', 'apply', 'to',
             'where', 'import', 'assign', 'ignore', 'function', 'return', 'break', 'continue', 'for', 'if', 'else', 'while', 'throw', 'try',
@@ -462,6 +531,115 @@ def generate(seed, tier):
                                'cw_create type=Host name=%s attrs=%s exp=ok must=ok%s' % (hx(nm), enc({'check_command': 'cwcmd', 'vars': {'k': 'v'}}), FT),
                                'cw_delete type=Host name=%s cascade=0' % hx(nm),
                                'cw_create type=Host name=%s attrs=%s exp=ok must=ok%s' % (hx(nm), enc({'check_command': 'cwcmd'}), FT)], 'retry-after-' + kind))
+    # J. duplicate names, for every type the API can create: the second request must be refused and must not touch
+    #    the file (name or bytes) of the object that exists; same attributes / other attributes / first object from
+    #    static configuration; a name differing only in case is a different object; create - delete - create
+    G0 = 'cw_global name=CwProbe val=initial'
+    for ty in SIMPLE_TYPES + COMPOSITE:
+        for nm0 in ('dupA', 'd"u\\p'):
+            pre, post, par = [], [], 'dp'
+            if ty in COMPOSITE:
+                pre = [cr('Host', 'dh', valid_attrs('Host'), must=True), cr('Service', 'dh!ds', valid_attrs('Service'), must=True)]
+                post = [dl('Host', 'dh', 1)]
+            if ty == 'Dependency':
+                pre.append(cr('Host', 'dp', valid_attrs('Host'), must=True)); post.append(dl('Host', 'dp', 1))
+            names = [nm0] if ty not in COMPOSITE else (['dh!' + nm0] if ty == 'Service' else ['dh!' + nm0, 'dh!ds!' + nm0])
+            for nm in names:
+                va, vb = valid_attrs(ty, par), variant_attrs(ty, par)
+                upper = nm[:-len(nm0)] + nm0.upper()
+                # first object created at run time
+                cases.append(case([G0] + pre + [
+                    cr(ty, nm, va, must=True),
+                    cr(ty, nm, va),                       # same request again: "already exists"
+                    cr(ty, nm, vb),                       # differs only in attributes
+                    cr(ty, upper, vb, must=True),         # differs in case: another object, another file
+                    cr(ty, nm, va),
+                    dl(ty, nm, 0),
+                    cr(ty, nm, vb, must=True),            # the name is free again
+                    cr(ty, nm, va),
+                    dl(ty, upper, 0), dl(ty, nm, 0)] + post, 'dup-runtime-' + ty))
+                # first object from static configuration: refused, and the static object cannot be deleted
+                cases.append(case([G0] + pre + [
+                    st(ty, nm, par if ty == 'Dependency' else None),
+                    cr(ty, nm, va),
+                    cr(ty, nm, vb),
+                    dl(ty, nm, 0), dl(ty, nm, 1),
+                    cr(ty, upper, va, must=True),
+                    cr(ty, nm, va)] + post, 'dup-static-' + ty))
+    # K. cascading deletes over a real dependency graph: host <- services <- notifications / dependencies / comments /
+    #    downtimes / scheduled downtimes, a run-time check command used by a host, static children below run-time
+    #    parents; refused without cascade; with cascade exactly the closure and exactly its files go
+    for i in range(60 * scale):
+        L = [G0]
+        hs = ['ca', 'cb']
+        use_cc = rnd.random() < 0.5
+        if use_cc:
+            L.append(cr('CheckCommand', 'rcc', valid_attrs('CheckCommand'), must=True))
+        objs = []
+        for h in hs:
+            a = valid_attrs('Host')
+            if use_cc and h == 'cb': a['check_command'] = 'rcc'
+            L.append(cr('Host', h, a, must=True) if rnd.random() < 0.85 else st('Host', h))
+            objs.append(('Host', h))
+            for sv in rnd.sample(['s1', 's2', 's"3'], rnd.randint(0, 2)):
+                L.append(cr('Service', h + '!' + sv, valid_attrs('Service'), must=True) if rnd.random() < 0.8 else st('Service', h + '!' + sv))
+                objs.append(('Service', h + '!' + sv))
+        svcs = [n for t, n in objs if t == 'Service']
+        for _ in range(rnd.randint(1, 5)):
+            ty = rnd.choice(COMPOSITE3)
+            base = rnd.choice(hs + svcs)
+            if ty == 'Dependency':           # children below cb, parents below ca: no dependency cycle
+                base = rnd.choice(['cb'] + [x for x in svcs if x.startswith('cb!')])
+            nm = base + '!' + rnd.choice(('x1', 'x2', 'x y'))
+            if (ty, nm) in objs: continue
+            a = valid_attrs(ty, 'ca')
+            psvcs = [x for x in svcs if x.startswith('ca!')]
+            if ty == 'Dependency' and psvcs and rnd.random() < 0.5:
+                ps = rnd.choice(psvcs)
+                a = {'parent_host_name': ps.split('!')[0], 'parent_service_name': ps.split('!')[1]}
+            if rnd.random() < 0.2 and ty != 'Dependency':
+                L.append(st(ty, nm))
+            else:
+                L.append(cr(ty, nm, a, must=True))
+            objs.append((ty, nm))
+        for _ in range(rnd.randint(1, 4)):
+            t, n = rnd.choice(objs + ([('CheckCommand', 'rcc')] if use_cc else []))
+            L.append(dl(t, n, rnd.randint(0, 1)))
+        # a duplicate after the deletes, then everything goes
+        # (only Host / Service: a deleted Service stays in its host's m_Services map - Host::RemoveService is never called -
+        #  so a Comment/Downtime/... requested for a deleted service is accepted by the code; see notes, not exercised here)
+        t, n = rnd.choice([o for o in objs if o[0] in ('Host', 'Service')])
+        L.append(cr(t, n, valid_attrs(t)))
+        for h in hs: L.append(dl('Host', h, 1))
+        if use_cc: L.append(dl('CheckCommand', 'rcc', 1))
+        cases.append(case(L, 'cascade-graph'))
+    # fixed shapes: chain of depth 3, diamond (a notification reached through host and service), dependency between two services
+    cases.append(case([G0, cr('Host', 'k', valid_attrs('Host'), must=True), cr('Service', 'k!s', valid_attrs('Service'), must=True),
+                       cr('Notification', 'k!s!n', valid_attrs('Notification'), must=True), cr('Comment', 'k!s!c', valid_attrs('Comment'), must=True),
+                       cr('Downtime', 'k!d', valid_attrs('Downtime'), must=True),
+                       dl('Service', 'k!s', 0), dl('Host', 'k', 0), dl('Service', 'k!s', 1), dl('Host', 'k', 1)], 'cascade-chain'))
+    cases.append(case([G0, cr('Host', 'k', valid_attrs('Host'), must=True), cr('Service', 'k!s', valid_attrs('Service'), must=True),
+                       cr('Service', 'k!t', valid_attrs('Service'), must=True),
+                       cr('Dependency', 'k!s!d', {'parent_host_name': 'k', 'parent_service_name': 't'}, must=True),
+                       dl('Service', 'k!t', 0), dl('Service', 'k!t', 1), dl('Host', 'k', 1)], 'cascade-dependency'))
+    cases.append(case([G0, cr('CheckCommand', 'rcc', valid_attrs('CheckCommand'), must=True),
+                       cr('Host', 'k', {'check_command': 'rcc'}, must=True), cr('Service', 'k!s', {'check_command': 'rcc'}, must=True),
+                       st('Service', 'k!st'), dl('CheckCommand', 'rcc', 0), dl('CheckCommand', 'rcc', 1),
+                       cr('Host', 'k', {'check_command': 'rcc'}, exp='commit'), cr('Host', 'k', valid_attrs('Host'), must=True), dl('Host', 'k', 0)], 'cascade-command'))
+    # L. failures of every type: invalid attribute, non-configurable attribute, missing parent, bad name
+    for ty in SIMPLE_TYPES + COMPOSITE:
+        va = valid_attrs(ty, 'fp')
+        nm = 'fx' if ty not in COMPOSITE else 'fh!fx'
+        L = [G0, cr('Host', 'fh', valid_attrs('Host'), must=True), cr('Host', 'fp', valid_attrs('Host'), must=True)]
+        bad1 = dict(va); bad1['nosuchattr'] = 'x'
+        bad2 = dict(va); bad2[TYPES[ty][1]] = 'x'
+        L += [cr(ty, nm, bad1), cr(ty, nm, bad2)]
+        if ty in COMPOSITE:
+            L += [cr(ty, 'nohost!fx', va, exp='commit'), cr(ty, 'nobang', va)]
+        if ty in COMPOSITE3:
+            L += [cr(ty, 'fh!nosvc!fx', va, exp='commit')]
+        L += [cr(ty, nm, va, must=True), dl('Host', 'fh', 1), dl('Host', 'fp', 1)]
+        cases.append(case(L, 'fail-' + ty))
     # G. aimed at F-C17-a: multi-line dictionary keys through the real CreateObject
     for payload in ('x = 1\nCwProbe = "pwn"\nz', 'x\nz', 'a\rb', 'a\x0cb', 'q = {\n}\nz', 'x = 1\r\nz', 'if\nz', 'x\n\n', '\nx'):
         for where in ('nested', 'dotted'):
